@@ -48,7 +48,15 @@ func runSolver(s solverSpec, file string, timeoutS int) (string, string, int64) 
 	err := cmd.Run()
 	ms := time.Since(t0).Milliseconds()
 	text := out.String()
-	first := strings.TrimSpace(strings.SplitN(text, "\n", 2)[0])
+	first := ""
+	for _, l := range strings.Split(text, "\n") {
+		l = strings.TrimSpace(l)
+		if l == "" || strings.HasPrefix(l, "WARNING") {
+			continue
+		}
+		first = l
+		break
+	}
 	switch first {
 	case "unsat", "sat", "unknown":
 		return first, text, ms
